@@ -35,8 +35,11 @@ def frozen_closure(src):
 
 
 def run(ded, repo, tier):
-    driver.run_parallel(ded, [dict(module='contracts.oto', repo=repo, q=q, tier=tier, clause_of={'*': 'onetoone_inverse'})
-                              for q in m.FUNCS])
+    from contracts import m2m
+    specs = [dict(module='contracts.oto', repo=repo, q=q, tier=tier, clause_of={'*': 'onetoone_inverse'}) for q in m.FUNCS]
+    specs += [dict(module='contracts.m2m', repo=repo, q=q, tier=tier, timeout=40 if tier == 'quick' else 120,
+                   clause_of={'*': 'manytomany_transposed'}) for q in m2m.FUNCS]
+    driver.run_parallel(ded, specs)
     src = front.load(repo, m.FILE)
     missing, raiser = frozen_closure(src)
     if missing is None:
@@ -48,4 +51,4 @@ def run(ded, repo, tier):
                            'refuted' if missing else 'proved', backend='ast', detail='not blocked: %r' % missing if missing else '',
                            model=dict(missing=missing)))
     ded.assume('keys and values are opaque hashable values with total, side-effect-free ==/hash')
-    ded.trust('not under contract (bounded only): OneToOne.__init__/update/copy/__ior__ closure, ManyToMany, FrozenDict.__hash__/updated/copy/pickle')
+    ded.trust('not under contract (bounded only): OneToOne.__init__/update/copy/__ior__ closure, ManyToMany.__setitem__/__delitem__/replace/update (add and remove are under contract), FrozenDict.__hash__/updated/copy/pickle')
